@@ -1,1 +1,413 @@
-import HdModel.Spec.Pool
+import HdModel.Lemmas.PoolFrame
+/-! # C15 — the pool keeps at most the configured number of idle connections per origin
+
+Theorem about the pool model `Hd.Pool` (mirror of `client/pool`): in **every** state reachable by
+**any** sequence of operations, for every origin, the idle list is within `max_idle_per_host`. -/
+namespace Hd.Pool
+
+def IdleBound (s : State) : Prop := ∀ t, (s.idle t).length ≤ s.cfg.maxIdle
+
+theorem idleBound_of_eq {s s' : State} (h : IdleBound s) (hi : s'.idle = s.idle) (hc : s'.cfg = s.cfg) : IdleBound s' := by
+  intro t; rw [hi, hc]; exact h t
+
+theorem push_idleBound (s : State) (t : Token) (c : ConnId) (h : IdleBound s) : IdleBound (push s t c) := by
+  unfold push
+  simp only []
+  have hl := pushLoop_idle (clearMarker s t c) t c ((clearMarker s t c).waiting t)
+  generalize pushLoop (clearMarker s t c) t c ((clearMarker s t c).waiting t) = res at hl
+  obtain ⟨s1, delivered⟩ := res
+  simp only [clearMarker_idle, clearMarker_cfg] at hl ⊢
+  have h1 : IdleBound s1 := idleBound_of_eq h hl.1 hl.2
+  split
+  · exact h1
+  · split
+    · rename_i hlt
+      intro t'
+      by_cases ht : t' = t
+      · subst ht; simp; omega
+      · simp [ht]; exact h1 t'
+    · split
+      · exact h1
+      · exact idleBound_of_eq h1 rfl rfl
+
+theorem idlePop_length (s : State) (l : List (ConnId × Nat)) :
+    (idlePop s l).2.1.length ≤ l.length ∧ ((idlePop s l).1.isSome → (idlePop s l).2.1.length < l.length) := by
+  induction l with
+  | nil => simp [idlePop]
+  | cons x rest ih =>
+    obtain ⟨c, at_⟩ := x
+    simp only [idlePop]
+    split
+    · simp
+    · split
+      · simp
+      · generalize idlePop s rest = res at ih
+        obtain ⟨r, l', d⟩ := res
+        simp only [List.length_cons] at ih ⊢
+        constructor
+        · omega
+        · intro hs; have := ih.2 hs; omega
+
+theorem issue_idleBound (s : State) (r : ReqId) (k : KeyId) (mux : Bool) (h : IdleBound s) :
+    IdleBound (issue s r k mux) := by
+  unfold issue
+  have hk : IdleBound (tokenOf s k).1 := by
+    unfold tokenOf; split
+    · exact h
+    · exact idleBound_of_eq h rfl rfl
+  generalize tokenOf s k = tk at hk
+  obtain ⟨s1, t⟩ := tk
+  simp only [] at hk ⊢
+  have hp := idlePop_length s1 (s1.idle t)
+  generalize idlePop s1 (s1.idle t) = res at hp
+  obtain ⟨got, rest, gone⟩ := res
+  simp only [] at hp ⊢
+  cases got with
+  | none =>
+    simp only []
+    unfold issueMissing
+    simp only []
+    split
+    · intro t'
+      by_cases ht : t' = t
+      · subst ht; simp [noteDropped]; exact Nat.le_trans hp.1 (hk t')
+      · simp [noteDropped, ht]; exact hk t'
+    · intro t'
+      by_cases ht : t' = t
+      · subst ht
+        split <;> (simp [noteDropped]; exact Nat.le_trans hp.1 (hk t'))
+      · split <;> (simp [noteDropped, ht]; exact hk t')
+  | some c =>
+    have hlt := hp.2 rfl
+    simp only []
+    unfold issueFound
+    intro t'
+    by_cases ht : t' = t
+    · subst ht
+      split
+      · simp [noteDropped]; have := hk t'; omega
+      · simp [noteDropped]; have := hk t'; omega
+    · split <;> (simp [noteDropped, ht]; exact hk t')
+
+theorem returnUnused_idleBound (s : State) (c : Checkout) (h : IdleBound s) : IdleBound (returnUnused s c) := by
+  unfold returnUnused
+  split
+  · split
+    · exact push_idleBound _ _ _ h
+    · split
+      · exact h
+      · exact idleBound_of_eq h rfl rfl
+  · exact h
+
+theorem dropCheckout_idleBound (s : State) (r : ReqId) (h : IdleBound s) : IdleBound (dropCheckout s r) := by
+  unfold dropCheckout
+  split
+  · exact h
+  · rename_i c hc
+    split
+    · exact h
+    · have h1 := returnUnused_idleBound s c h
+      simp only []
+      split
+      · exact idleBound_of_eq h1 (by simp) (by simp)
+      · exact idleBound_of_eq h1 (by simp) (by simp)
+
+theorem registerConnected_idleBound (s : State) (c : Checkout) (cid : ConnId) (h : IdleBound s) :
+    IdleBound (registerConnected s c cid).1 := by
+  unfold registerConnected
+  split
+  · exact push_idleBound _ _ _ h
+  · exact h
+
+theorem pollWaiter_idle (s : State) (r : ReqId) (c : Checkout) :
+    (pollWaiter s r c).1.idle = s.idle ∧ (pollWaiter s r c).1.cfg = s.cfg := by
+  unfold pollWaiter
+  split
+  · split <;> simp
+  · split <;> simp
+  · simp
+
+theorem pollCheckout_idleBound (s : State) (r : ReqId) (c : Checkout) (h : IdleBound s) :
+    IdleBound (pollCheckout s r c).1 := by
+  unfold pollCheckout
+  have hw := pollWaiter_idle s r c
+  generalize pollWaiter s r c = res at hw
+  obtain ⟨s1, c1, w⟩ := res
+  simp only [] at hw ⊢
+  have h1 : IdleBound s1 := idleBound_of_eq h hw.1 hw.2
+  split
+  · exact h1
+  · exact h1
+  · split
+    · exact h1
+    · split
+      · exact h1
+      · exact idleBound_of_eq h1 (by simp) (by simp)
+    · have h2 : IdleBound (startDial s1 r) := idleBound_of_eq h1 (by simp) (by simp)
+      generalize startDial s1 r = s2 at h2
+      split
+      · exact h2
+      · have h3 : IdleBound (dropRx s2 r) := idleBound_of_eq h2 (by simp) (by simp)
+        split
+        · exact registerConnected_idleBound _ _ _ (idleBound_of_eq h3 (by simp) (by simp))
+        · exact h3
+        · exact h3
+
+theorem runWhenReady_idleBound (s : State) (i : Nat) (c : ConnId) (t : Token) (hp : Bool) (h : IdleBound s) :
+    IdleBound (runWhenReady s i c t hp) := by
+  unfold runWhenReady
+  split
+  · exact idleBound_of_eq h rfl rfl
+  · split
+    · exact idleBound_of_eq h rfl rfl
+    · split
+      · exact h
+      · split
+        · exact push_idleBound _ _ _ (idleBound_of_eq h rfl rfl)
+        · exact idleBound_of_eq h rfl rfl
+
+theorem runDelayed_idleBound (s : State) (i : Nat) (r : ReqId) (h : IdleBound s) : IdleBound (runDelayed s i r) := by
+  unfold runDelayed
+  split
+  · exact idleBound_of_eq h rfl rfl
+  · rename_i c hc
+    have hp := pollCheckout_idleBound s r c h
+    simp only []
+    split
+    · exact idleBound_of_eq hp rfl rfl
+    · exact idleBound_of_eq hp (by simp) (by simp)
+    · exact idleBound_of_eq hp (by simp) (by simp)
+
+theorem runTask_idleBound (s : State) (i : Nat) (h : IdleBound s) : IdleBound (runTask s i) := by
+  unfold runTask
+  split
+  · exact h
+  · exact runWhenReady_idleBound _ _ _ _ _ h
+  · exact runDelayed_idleBound _ _ _ h
+
+theorem runAll_idleBound (fuel : Nat) (s : State) (h : IdleBound s) : IdleBound (runAll fuel s) := by
+  induction fuel generalizing s with
+  | zero => exact h
+  | succ n ih =>
+    unfold runAll
+    split
+    · exact h
+    · exact ih _ (runTask_idleBound _ _ (idleBound_of_eq h rfl rfl))
+
+theorem step_idleBound (s : State) (op : Op) (h : IdleBound s) : IdleBound (step s op).1 := by
+  cases op with
+  | issue r k mux =>
+    simp only [step]; split
+    · exact h
+    · exact issue_idleBound s r k mux h
+  | poll r =>
+    simp only [step]; split
+    · exact h
+    · rename_i c hc
+      split
+      · exact h
+      · have hp := pollCheckout_idleBound s r c h
+        generalize pollCheckout s r c = res at hp
+        obtain ⟨s1, c1, pr⟩ := res
+        simp only [] at hp ⊢
+        have h1 : IdleBound { s1 with co := upd s1.co r (some c1) } := idleBound_of_eq hp rfl rfl
+        split
+        · exact h1
+        · apply dropCheckout_idleBound
+          split
+          · exact idleBound_of_eq h1 rfl rfl
+          · exact idleBound_of_eq h1 (by simp) (by simp)
+        · exact dropCheckout_idleBound _ _ h1
+        · exact dropCheckout_idleBound _ _ h1
+  | cancel r =>
+    simp only [step]; split
+    · exact idleBound_of_eq h (by simp) (by simp)
+    · split
+      · exact h
+      · split
+        · exact dropCheckout_idleBound _ _ h
+        · exact h
+  | dialDone r o =>
+    simp only [step]; split
+    · exact idleBound_of_eq h rfl rfl
+    · exact h
+  | finish r =>
+    simp only [step]; split
+    · exact idleBound_of_eq h (by simp) (by simp)
+    · exact h
+  | connReady c =>
+    simp only [step]; split
+    · exact idleBound_of_eq h (by simp) (by simp)
+    · exact h
+  | connClose c =>
+    simp only [step]; split
+    · exact idleBound_of_eq h (by simp) (by simp)
+    · exact h
+  | run => exact runAll_idleBound _ _ h
+  | tick ms => exact idleBound_of_eq h rfl rfl
+  | mark => exact h
+
+theorem push_cfg (s : State) (t : Token) (c : ConnId) : (push s t c).cfg = s.cfg := by
+  unfold push
+  simp only []
+  have hl := pushLoop_idle (clearMarker s t c) t c ((clearMarker s t c).waiting t)
+  generalize pushLoop (clearMarker s t c) t c ((clearMarker s t c).waiting t) = res at hl
+  obtain ⟨s1, d⟩ := res
+  simp only [clearMarker_idle, clearMarker_cfg] at hl ⊢
+  split
+  · exact hl.2
+  · split
+    · exact hl.2
+    · split <;> exact hl.2
+
+theorem issue_cfg (s : State) (r : ReqId) (k : KeyId) (mux : Bool) : (issue s r k mux).cfg = s.cfg := by
+  unfold issue
+  have hk : (tokenOf s k).1.cfg = s.cfg := by unfold tokenOf; split <;> rfl
+  generalize tokenOf s k = tk at hk
+  obtain ⟨s1, t⟩ := tk
+  simp only [] at hk ⊢
+  generalize idlePop s1 (s1.idle t) = res
+  obtain ⟨got, rest, gone⟩ := res
+  cases got with
+  | none => simp only []; unfold issueMissing; simp only []; split <;> (try split) <;> simpa [noteDropped] using hk
+  | some c => simp only []; unfold issueFound; split <;> simpa [noteDropped] using hk
+
+theorem returnUnused_cfg (s : State) (c : Checkout) : (returnUnused s c).cfg = s.cfg := by
+  unfold returnUnused
+  split
+  · split
+    · exact push_cfg _ _ _
+    · split <;> rfl
+  · rfl
+
+theorem dropCheckout_cfg (s : State) (r : ReqId) : (dropCheckout s r).cfg = s.cfg := by
+  unfold dropCheckout
+  split
+  · rfl
+  · split
+    · rfl
+    · simp only []; split <;> simp [returnUnused_cfg]
+
+theorem registerConnected_cfg (s : State) (c : Checkout) (cid : ConnId) : (registerConnected s c cid).1.cfg = s.cfg := by
+  unfold registerConnected
+  split
+  · exact push_cfg _ _ _
+  · rfl
+
+theorem pollCheckout_cfg (s : State) (r : ReqId) (c : Checkout) : (pollCheckout s r c).1.cfg = s.cfg := by
+  unfold pollCheckout
+  have hw := pollWaiter_idle s r c
+  generalize pollWaiter s r c = res at hw
+  obtain ⟨s1, c1, w⟩ := res
+  simp only [] at hw ⊢
+  split
+  · exact hw.2
+  · exact hw.2
+  · split
+    · exact hw.2
+    · split
+      · exact hw.2
+      · simp [hw.2]
+    · split
+      · simp [hw.2]
+      · split
+        · rw [registerConnected_cfg]; simp [hw.2]
+        · simp [hw.2]
+        · simp [hw.2]
+
+theorem runWhenReady_cfg (s : State) (i : Nat) (c : ConnId) (t : Token) (hp : Bool) :
+    (runWhenReady s i c t hp).cfg = s.cfg := by
+  unfold runWhenReady
+  split
+  · rfl
+  · split
+    · rfl
+    · split
+      · rfl
+      · split
+        · rw [push_cfg]; rfl
+        · rfl
+
+theorem runDelayed_cfg (s : State) (i : Nat) (r : ReqId) : (runDelayed s i r).cfg = s.cfg := by
+  unfold runDelayed
+  split
+  · rfl
+  · rename_i c hc
+    have hp := pollCheckout_cfg s r c
+    simp only []
+    split <;> simp [hp]
+
+theorem runTask_cfg (s : State) (i : Nat) : (runTask s i).cfg = s.cfg := by
+  unfold runTask
+  split
+  · rfl
+  · exact runWhenReady_cfg _ _ _ _ _
+  · exact runDelayed_cfg _ _ _
+
+theorem runAll_cfg (fuel : Nat) (s : State) : (runAll fuel s).cfg = s.cfg := by
+  induction fuel generalizing s with
+  | zero => rfl
+  | succ n ih =>
+    unfold runAll
+    split
+    · rfl
+    · rw [ih, runTask_cfg]
+
+theorem step_cfg (s : State) (op : Op) : (step s op).1.cfg = s.cfg := by
+  cases op with
+  | issue r k mux => simp only [step]; split <;> simp [issue_cfg]
+  | poll r =>
+    simp only [step]; split
+    · rfl
+    · rename_i c hc
+      split
+      · rfl
+      · have hp := pollCheckout_cfg s r c
+        generalize pollCheckout s r c = res at hp
+        obtain ⟨s1, c1, pr⟩ := res
+        simp only [] at hp ⊢
+        split
+        · simp [hp]
+        · rw [dropCheckout_cfg]; split <;> simp [hp]
+        · rw [dropCheckout_cfg]; simp [hp]
+        · rw [dropCheckout_cfg]; simp [hp]
+  | cancel r =>
+    simp only [step]; split
+    · simp
+    · split
+      · rfl
+      · split
+        · exact dropCheckout_cfg _ _
+        · rfl
+  | dialDone r o => simp only [step]; split <;> simp
+  | finish r => simp only [step]; split <;> simp
+  | connReady c => simp only [step]; split <;> simp
+  | connClose c => simp only [step]; split <;> simp
+  | run => exact runAll_cfg _ _
+  | tick ms => rfl
+  | mark => rfl
+
+/-- **C15.** At no time does the pool retain more idle connections for one origin than
+    `max_idle_per_host`: for every configuration, every operation sequence (any length, any
+    interleaving of issue / poll / cancel / dial completion / release / readiness / close / task
+    steps / clock ticks), every origin, at every point of the history. -/
+theorem C15_idle_bound (cfg : Config) (ops : List Op) (t : Token) :
+    ((run (init cfg) ops).1.idle t).length ≤ cfg.maxIdle := by
+  have key : ∀ (s : State) (ops : List Op), IdleBound s → IdleBound (run s ops).1 ∧ (run s ops).1.cfg = s.cfg := by
+    intro s ops
+    induction ops generalizing s with
+    | nil => intro h; exact ⟨h, rfl⟩
+    | cons op ops ih =>
+      intro h
+      simp only [run]
+      have := ih (step s op).1 (step_idleBound s op h)
+      refine ⟨this.1, ?_⟩
+      rw [this.2]
+      exact step_cfg s op
+  have h0 : IdleBound (init cfg) := by intro t; simp [init]
+  have := key (init cfg) ops h0
+  have hb := this.1 t
+  rw [this.2] at hb
+  exact hb
+
+end Hd.Pool
